@@ -20,6 +20,7 @@ import (
 	"path/filepath"
 	"strconv"
 	"strings"
+	"sync"
 	"syscall"
 	"testing"
 	"time"
@@ -39,7 +40,28 @@ type apiSession struct {
 	auth string
 }
 
+// stallStore delays the next write to the raft log (a slow disk): the entry commits late
+type stallStore struct {
+	*raftstore.LevelDBStore
+	mu   sync.Mutex
+	next time.Duration
+}
+
+func (s *stallStore) StoreLogs(logs []*raft.Log) error {
+	s.mu.Lock()
+	d := s.next
+	s.next = 0
+	s.mu.Unlock()
+	if d > 0 {
+		time.Sleep(d)
+	}
+	return s.LevelDBStore.StoreLogs(logs)
+}
+
+func (s *stallStore) StoreLog(l *raft.Log) error { return s.StoreLogs([]*raft.Log{l}) }
+
 type apiHarness struct {
+	stall    *stallStore
 	t        *testing.T
 	dir      string
 	logstore *raftstore.LevelDBStore
@@ -93,7 +115,8 @@ func (h *apiHarness) start(fresh bool) string {
 		return "error " + err.Error()
 	}
 	_, trans := raft.NewInmemTransport("node1")
-	logcache, _ := raft.NewLogCache(512, h.logstore)
+	h.stall = &stallStore{LevelDBStore: h.logstore}
+	logcache, _ := raft.NewLogCache(512, h.stall)
 	existing, _ := raft.HasExistingState(logcache, h.logstore, fss)
 	h.raft, err = raft.NewRaft(cfg, h.fsm, logcache, h.logstore, fss, trans)
 	if err != nil {
@@ -516,6 +539,12 @@ func (h *apiHarness) op(f []string) (res string) {
 		id, _ := strconv.ParseUint(r.Sessionid, 0, 64)
 		g := <-done
 		return fmt.Sprintf("get=%d bytes=%d create=%d hit=%v", g.code, g.n, code, id == next)
+	case "stall": // stall <ms>: the next write to the raft log takes that long
+		ms, _ := strconv.Atoi(f[1])
+		h.stall.mu.Lock()
+		h.stall.next = time.Duration(ms) * time.Millisecond
+		h.stall.mu.Unlock()
+		return "ok"
 	case "sleep":
 		ms, _ := strconv.Atoi(f[1])
 		time.Sleep(time.Duration(ms) * time.Millisecond)
